@@ -1,6 +1,7 @@
 package main
 
 import (
+	"bytes"
 	"encoding/hex"
 	"fmt"
 	"math"
@@ -8,6 +9,8 @@ import (
 	"sort"
 	"strings"
 	"time"
+
+	"github.com/Trisia/randomness/detect"
 
 	"verif/internal/ev"
 	"verif/internal/gen"
@@ -231,7 +234,7 @@ func clip(s string, n int) string {
 }
 
 func hashScn(sc Scn) uint64 {
-	return ev.HashStr(fmt.Sprintf("%s|%s|%d|%v|%v|%v|%v|%d|%s", sc.WF, sc.Stream.Kind, sc.Stream.Seed, sc.Stub, sc.Chunk, sc.Fault, sc.Delay, sc.Procs, sc.Note))
+	return ev.HashStr(fmt.Sprintf("%s|%s|%d|%v|%v|%v|%v|%d|%s|%s|%d", sc.WF, sc.Stream.Kind, sc.Stream.Seed, sc.Stub, sc.Chunk, sc.Fault, sc.Delay, sc.Procs, sc.Note, sc.Source, sc.Prefix))
 }
 
 func sampleScn(sc Scn, r *Res) map[string]interface{} {
@@ -647,6 +650,33 @@ func runC08(c *ev.Ctx) {
 			for k := 0; k < 3; k++ {
 				id++
 				scns = append(scns, Scn{ID: id, WF: fname, Stream: st, Stub: true, Chunk: plan, Delay: mon.DelayPlan{Mode: delays[k%4], Seed: uint64(id)}, Procs: procs[k%4], Note: fmt.Sprintf("stalling source (%d empty reads) rep%d", stall, k)})
+				g.fast = append(g.fast, id)
+			}
+			groups = append(groups, g)
+		}
+	}
+	// seekable / random-access reader types at a non-zero start position
+	for si, srcT := range []string{"bytes", "file", "bufio"} {
+		for _, fname := range []string{"PeriodFast", "PowerOnFast", "FactoryFast"} {
+			if fname == "FactoryFast" && si != 0 && !c.Thorough() {
+				continue
+			}
+			w := workflows[fname]
+			r := gen.NewRng(gen.Mix(seed, 8099, uint64(si), uint64(w.S), uint64(w.B)))
+			m := baseMatrix(r, w.S, w.Items)
+			for i := 0; i < w.Items; i++ {
+				setPassCount(r, m, i, oracle.Threshold(w.S))
+			}
+			st := Stream{Kind: "matrix", Seed: r.U64(), Matrix: m, Tail: "fail"}
+			pre := []int{w.B, 7, 3*w.B + 1}[si]
+			g := &c08Group{wf: fname, stream: st}
+			id++
+			g.seqID = id
+			scns = append(scns, Scn{ID: id, WF: w.Seq, Stream: st, Stub: true, Chunk: mon.ChunkPlan{Kind: "whole"}, Source: srcT, Prefix: pre, Note: fmt.Sprintf("sequential reference: source=%s start=%d", srcT, pre)})
+			for k := 0; k < 3; k++ {
+				id++
+				scns = append(scns, Scn{ID: id, WF: fname, Stream: st, Stub: true, Chunk: mon.ChunkPlan{Kind: "whole"}, Source: srcT, Prefix: pre, Delay: mon.DelayPlan{Mode: delays[k%4], Seed: uint64(id)}, Procs: procs[k%4], Note: fmt.Sprintf("source=%s start=%d rep%d", srcT, pre, k)})
+				raceOf[id] = k == 2
 				g.fast = append(g.fast, id)
 			}
 			groups = append(groups, g)
@@ -1087,6 +1117,35 @@ func runC10(c *ev.Ctx) {
 					g.ids = append(g.ids, id)
 				}
 			}
+			// the stream ends exactly with the last required byte and the final Read returns io.EOF
+			// together with those bytes: everything required was delivered, the verdict must not change
+			for pi, pl := range []mon.ChunkPlan{{Kind: "whole", EOFWithLast: true}, {Kind: "fixed", Size: 997, EOFWithLast: true}, {Kind: "fixed", Size: w.B - 1, EOFWithLast: true}} {
+				id++
+				st2 := st
+				st2.Tail = "none"
+				sc := Scn{ID: id, WF: name, Stream: st2, Stub: st.Kind == "matrix", Chunk: pl, Note: fmt.Sprintf("%s plan=%s/%d final read returns data+EOF", st.Kind, pl.Kind, pl.Size)}
+				if w.Fast {
+					sc.Delay = mon.DelayPlan{Mode: []string{"none", "mixed", "gosched"}[pi], Seed: uint64(id)}
+				}
+				scns = append(scns, sc)
+				g.ids = append(g.ids, id)
+			}
+			// the same bytes through other concrete reader types, from a non-zero start position
+			// (readers that also implement io.ReaderAt / io.Seeker / io.ByteReader invite fast paths)
+			for si, srcT := range []string{"bytes", "file", "bufio", "limited"} {
+				for pi, pre := range []int{0, 1, w.B + 3} {
+					if !c.Thorough() && w.S == 50 && (si+pi)%2 == 1 {
+						continue
+					}
+					id++
+					sc := Scn{ID: id, WF: name, Stream: st, Stub: st.Kind == "matrix", Chunk: mon.ChunkPlan{Kind: "whole"}, Source: srcT, Prefix: pre, Note: fmt.Sprintf("%s source=%s start=%d", st.Kind, srcT, pre)}
+					if w.Fast {
+						sc.Delay = mon.DelayPlan{Mode: []string{"none", "mixed"}[(si+pi)%2], Seed: uint64(id)}
+					}
+					scns = append(scns, sc)
+					g.ids = append(g.ids, id)
+				}
+			}
 			groups = append(groups, g)
 		}
 	}
@@ -1101,6 +1160,13 @@ func runC10(c *ev.Ctx) {
 				for _, pl := range []mon.ChunkPlan{{Kind: "whole"}, {Kind: "fixed", Size: 1}, {Kind: "fixed", Size: 7}, {Kind: "random", Seed: r.U64()}, {Kind: "fixed", Size: nb - 1}} {
 					id++
 					scns = append(scns, Scn{ID: id, WF: "Single", NumByte: nb, Stream: st, Chunk: pl, Note: fmt.Sprintf("numByte=%d plan=%s/%d", nb, pl.Kind, pl.Size)})
+					ids = append(ids, id)
+				}
+				for _, pl := range []mon.ChunkPlan{{Kind: "whole", EOFWithLast: true}, {Kind: "fixed", Size: 7, EOFWithLast: true}} {
+					id++
+					st2 := st
+					st2.Tail = "none"
+					scns = append(scns, Scn{ID: id, WF: "Single", NumByte: nb, Stream: st2, Chunk: pl, Note: fmt.Sprintf("numByte=%d plan=%s/%d final read returns data+EOF", nb, pl.Kind, pl.Size)})
 					ids = append(ids, id)
 				}
 				singles = append(singles, ids)
@@ -1142,8 +1208,11 @@ func runC10(c *ev.Ctx) {
 			if !single {
 				samples = workflows[sc.WF].S
 			}
-			c.Eval(hashScn(sc), r.Reads > samples)
+			c.Eval(hashScn(sc), r.Reads > samples || sc.Source != "")
 			c.Count("runs_"+sc.WF, 1)
+			if sc.Source != "" {
+				c.Count("runs_through_foreign_reader_types", 1)
+			}
 			c.Count("reads_recorded", int64(r.Reads))
 			c.Count("judged_samples_checked", int64(r.Judged))
 			if raceOf[i] {
@@ -1162,7 +1231,9 @@ func runC10(c *ev.Ctx) {
 				c.Violation(key+":history", p, "wf", sc)
 				break
 			}
-			if single {
+			if r.Delivered < 0 {
+				// foreign reader type: consumption is not observable
+			} else if single {
 				if r.Delivered != int64(sc.NumByte) {
 					c.Violation(key+":consumed", fmt.Sprintf("SingleDetect consumed %d bytes, requested %d", r.Delivered, sc.NumByte), "wf", sc)
 				}
@@ -1269,6 +1340,29 @@ func runC14(c *ev.Ctx) {
 	for _, st := range periodic {
 		add("Period", st, "period "+clip(st.Period, 24)+fmt.Sprintf("(%dB)", len(st.Period)/2))
 		add("PeriodFast", st, "period "+clip(st.Period, 24)+fmt.Sprintf("(%dB)", len(st.Period)/2))
+	}
+	// the degenerate stream starts at a non-zero position of a seekable reader: good data in front of it
+	// (already consumed) must not be what gets judged
+	// (the prefix is PRNG data chosen so that the periodic detection accepts it on its own)
+	goodSeed := uint64(0)
+	for cand := uint64(1); cand < 200; cand++ {
+		pre := gen.NewRng(gen.Mix(gen.Mix(seed, 1416, cand), 4242)).Bytes(50000)
+		if ok, _ := detect.PeriodDetect(bytes.NewReader(pre)); ok {
+			goodSeed = gen.Mix(seed, 1416, cand)
+			break
+		}
+	}
+	for k, st := range append(append([]Stream{}, consts[0], consts[0xFF], consts[0xA5]), periodic[:5]...) {
+		if goodSeed == 0 {
+			break
+		}
+		st.Seed = goodSeed
+		for si, srcT := range []string{"bytes", "file", "bufio"} {
+			for _, wf := range []string{"Period", "PeriodFast"} {
+				id++
+				scns = append(scns, Scn{ID: id, WF: wf, Stream: st, Chunk: mon.ChunkPlan{Kind: "whole"}, Source: srcT, Prefix: []int{50000, 50000, 12345}[(k+si)%3], Note: fmt.Sprintf("%s %s%02x behind an accepted prefix, source=%s", st.Kind, clip(st.Period, 12), st.Byte, srcT)})
+			}
+		}
 	}
 	// 10^6-bit workflows: a rotating subset in quick, everything in thorough
 	var heavy []Scn
